@@ -411,10 +411,13 @@ class SparseArray:
         else:
             # the unstored elements are accumulated in the dtype the reduction itself accumulates in
             fill_value = np.asarray(self.fill_value).astype(data.dtype)[()]
-            data = method(
-                data,
-                reduce_super_ufunc(fill_value, n_cols - counts),
-            ).astype(data.dtype)
+            # a lane without unstored elements gets no contribution from the fill value
+            # (`inf * 0` and `nan * 0` would be `nan`)
+            missing = n_cols - counts
+            fill_part = np.full(missing.shape, method.identity, dtype=data.dtype)
+            has_missing = missing != 0
+            fill_part[has_missing] = reduce_super_ufunc(fill_value, missing[has_missing])
+            data = method(data, fill_part).astype(data.dtype)
             result_fill_value = reduce_super_ufunc(fill_value, n_cols)
 
         out = self._reduce_return(data, arr_attrs, result_fill_value)
